@@ -178,26 +178,19 @@ fn process_swaps_for_single_pool<C: ContentAddrStore>(
     log::trace!("{} relevant swaps for pool {:?}", swaps.len(), pool);
     let mut pool_state = state.pools.get(pool).unwrap();
     // sum up total lefts and rights
-    let total_lefts = swaps
-        .iter()
-        .map(|tx| {
-            if tx.outputs[0].denom == pool.left() {
-                tx.outputs[0].value
-            } else {
-                CoinValue(0)
-            }
-        })
-        .fold(0u128, |a, b| a.saturating_add(b.0));
-    let total_rights = swaps
-        .iter()
-        .map(|tx| {
-            if tx.outputs[0].denom == pool.right() {
-                tx.outputs[0].value
-            } else {
-                CoinValue(0)
-            }
-        })
-        .fold(0u128, |a, b| a.saturating_add(b.0));
+    let total_of = |side: Denom| {
+        swaps
+            .iter()
+            .filter(|tx| tx.outputs[0].denom == side)
+            .try_fold(0u128, |a, tx| a.checked_add(tx.outputs[0].value.0))
+    };
+    let (total_lefts, total_rights) = match (total_of(pool.left()), total_of(pool.right())) {
+        (Some(lefts), Some(rights)) => (lefts, rights),
+        // More than 256 requests of the maximum coin value exceed what a 128-bit total can hold. A saturated total would
+        // make the pro-rata shares add up to more than the amount taken out of the pool, so such a block's requests
+        // for this pool are left as they are.
+        _ => return,
+    };
     // transmute coins
     let (left_withdrawn, right_withdrawn) = pool_state.swap_many(total_lefts, total_rights);
 
@@ -277,29 +270,29 @@ fn process_deposits_for_single_pool<C: ContentAddrStore>(
     deposits: &mut [Transaction],
 ) {
     // sum up total lefts and rights
-    let total_lefts: u128 = deposits
-        .iter()
-        .map(|tx| tx.outputs[0].value.0)
-        .fold(0u128, |a, b| a.saturating_add(b));
-
-    let total_rights: u128 = deposits
-        .iter()
-        .map(|tx| tx.outputs[1].value.0)
-        .fold(0u128, |a, b| a.saturating_add(b));
-
+    let total_of = |index: usize| {
+        deposits
+            .iter()
+            .try_fold(0u128, |a, tx| a.checked_add(tx.outputs[index].value.0))
+    };
     // Each deposit's share of the minted liquidity is proportional to sqrt(left) * sqrt(right). Integer square roots can make
     // that term over the totals smaller than the sum of the individual terms (two deposits of 4 + 4: 2 * 2 < 2 * 2 + 2 * 2),
     // which handed out more liquidity tokens than the pool recorded; the divisor is therefore never below that sum.
-    let sum_mtsqrt = deposits
-        .iter()
-        .map(|tx| {
+    let sum_mtsqrt = deposits.iter().try_fold(0u128, |a, tx| {
+        a.checked_add(
             tx.outputs[0]
                 .value
                 .0
                 .sqrt()
-                .saturating_mul(tx.outputs[1].value.0.sqrt())
-        })
-        .fold(0u128, |a, b| a.saturating_add(b));
+                .saturating_mul(tx.outputs[1].value.0.sqrt()),
+        )
+    });
+    let (total_lefts, total_rights, sum_mtsqrt) = match (total_of(0), total_of(1), sum_mtsqrt) {
+        (Some(lefts), Some(rights), Some(sum)) => (lefts, rights, sum),
+        // More than 256 deposits of the maximum coin value exceed what a 128-bit total can hold. With a saturated total the
+        // shares add up to more liquidity than the pool records, so such a block's deposits into this pool are left as they are.
+        _ => return,
+    };
     let total_mtsqrt = total_lefts
         .sqrt()
         .saturating_mul(total_rights.sqrt())
